@@ -142,6 +142,8 @@ Definition t_lazy_origin := "viol:lazy-empty-origins-count-as-same-origin".
 Definition t_lazy_sum := "viol:lazy-link-target-compared-with-file-content".
 Definition t_stream_origin := "viol:stream-empty-origin-any-clash-fails".
 Definition t_stream_sym := "viol:stream-symlink-clash-fails".
+Definition t_alias := "viol:db-entry-aliased-through-symlinked-directory".
+Definition t_thru := "viol:file-unreachable-after-link-replaced".
 
 Definition is_dir_kind (k : kind) : bool := kind_eqb k KDir.
 
@@ -255,19 +257,25 @@ Definition EntryTrue (tree : list tnode) (d : dbent) : Prop :=
     ((t_uid n < 0)%Z \/ (t_uid n = Z.of_N (d_uid d) /\ t_gid n = Z.of_N (d_gid d))) /\
     (forall sm, d_sum d = Some sm -> t_kind n = TReg \/ t_kind n = TSym -> t_sum n = sm).
 
-(* [b], [pre] and [first_mode] only select the tag *)
-Definition check_entry (b : backend) (pre tree : list tnode) (first_mode : path -> option N) (d : dbent) : list string :=
+(* [b], [pre], [first_mode], [alias] (the entry's file is also shipped under
+   another name that resolves to the same place) and [thru] (a package ships a
+   symbolic link at a prefix of the path, or at the path) only select the tag *)
+Definition check_entry (b : backend) (pre tree : list tnode) (first_mode : path -> option N) (alias thru : path -> bool) (d : dbent) : list string :=
   match tree_lookup tree (d_path d) with
-  | None => ["viol:db-entry-missing-in-tree"]
+  | None => [if thru (d_path d) then t_thru else "viol:db-entry-missing-in-tree"]
   | Some n =>
       if d_dir d && tkind_eqb (t_kind n) TSym
       then [t_dir_over_link]          (* a directory entry where the tree has a symbolic link *)
+      else
+      if d_dir d && tkind_eqb (t_kind n) TReg && thru (d_path d)
+      then [t_thru]                   (* ... and that link was then replaced by a regular file *)
       else
       if negb (d_dir d) && tkind_eqb (t_kind n) TSym &&
          match d_sum d with Some sm => negb (N.eqb (t_sum n) sm) | None => false end
       then [if is_lazy b then "viol:db-stale-entry-under-symlink" else t_follow_link] else
       tag_if (negb (Bool.eqb (d_dir d) (tkind_eqb (t_kind n) TDir))) "viol:db-entry-kind-differs-from-tree" ++
       (if N.eqb (N.land (t_mode n) 511) (d_perm d) then []
+       else if negb (d_dir d) && alias (d_path d) then [t_alias]
        else if d_dir d && match first_mode (d_path d) with
                           | Some fm => N.eqb fm (N.land (t_mode n) 511) && negb (N.eqb fm (d_perm d))
                           | None => false end
@@ -287,13 +295,14 @@ Definition check_entry (b : backend) (pre tree : list tnode) (first_mode : path 
        else if Z.eqb (t_uid n) 0 && Z.eqb (t_gid n) 0 then ["viol:db-owner-not-applied"]
        else ["viol:db-owner-mismatch"]) ++
       match d_sum d with
-      | Some sm => tag_if ((tkind_eqb (t_kind n) TReg || tkind_eqb (t_kind n) TSym) && negb (N.eqb (t_sum n) sm)) "viol:db-content-mismatch"
+      | Some sm => tag_if ((tkind_eqb (t_kind n) TReg || tkind_eqb (t_kind n) TSym) && negb (N.eqb (t_sum n) sm))
+                     (if alias (d_path d) then t_alias else "viol:db-content-mismatch")
       | None => []
       end
   end.
 
-Definition check_db_entries (b : backend) (pre tree : list tnode) (first_mode : path -> option N) (db : list dbpkg) : list string :=
-  flat_map (fun p => flat_map (check_entry b pre tree first_mode) (dp_entries p)) db.
+Definition check_db_entries (b : backend) (pre tree : list tnode) (first_mode : path -> option N) (alias thru : path -> bool) (db : list dbpkg) : list string :=
+  flat_map (fun p => flat_map (check_entry b pre tree first_mode alias thru) (dp_entries p)) db.
 
 (* ---- validator 3: every packaged regular file is recorded under exactly one
    package, the one whose content is present --------------------------------- *)
@@ -315,7 +324,7 @@ Definition has_dir_headers (pk : pkg) (p : path) : bool :=
   | _ => forallb (is_dir_hdr (p_files pk)) (prefixes (parent p))
   end.
 
-Definition check_recorded_once (pkgs : list pkg) (db : list dbpkg) (tree : list tnode) (h : hdr) (shipper : pkg) : list string :=
+Definition check_recorded_once (pre : list tnode) (alias thru : path -> bool) (pkgs : list pkg) (db : list dbpkg) (tree : list tnode) (h : hdr) (shipper : pkg) : list string :=
   match h_kind h with
   | KReg =>
       match recorders pkgs db (h_path h), tree_lookup tree (h_path h) with
@@ -325,14 +334,23 @@ Definition check_recorded_once (pkgs : list pkg) (db : list dbpkg) (tree : list 
              bytes present (the possible owners) lacks a directory header for an
              ancestor, so that the writer's sort dropped its entry *)
           if existsb (fun pk => ships_content pk (h_path h) (t_sum n) && negb (has_dir_headers pk (h_path h))) pkgs
-          then ["viol:db-drops-file-without-directory-headers"] else ["viol:db-file-unrecorded"]
+          then ["viol:db-drops-file-without-directory-headers"]
+          else if alias (h_path h) then [t_alias] else ["viol:db-file-unrecorded"]
       | [pk], Some n =>
-          tag_if (negb (tkind_eqb (t_kind n) TReg && ships_content pk (h_path h) (t_sum n))) "viol:db-owner-wrong"
-      | _ :: _ :: _, _ => ["viol:db-file-recorded-twice"]
-      | _, None => ["viol:packaged-file-missing"]
+          tag_if (negb (tkind_eqb (t_kind n) TReg && ships_content pk (h_path h) (t_sum n)))
+                 (if alias (h_path h) then t_alias else "viol:db-owner-wrong")
+      | _ :: _ :: _, Some n =>
+          (* a file that was there before the install is owned by nobody: every
+             package shipping the same bytes records it (finding C07-F8) *)
+          if match tree_get pre (h_path h) with
+             | Some o => tkind_eqb (t_kind o) TReg && N.eqb (t_sum o) (t_sum n) && N.eqb (t_mode o) (t_mode n)
+             | None => false end
+          then ["viol:db-records-preexisting-file"] else ["viol:db-file-recorded-twice"]
+      | _ :: _ :: _, None => ["viol:db-file-recorded-twice"]
+      | _, None => [if thru (h_path h) then t_thru else "viol:packaged-file-missing"]
       end
   | _ => []
   end.
 
-Definition check_once_all (pkgs : list pkg) (db : list dbpkg) (tree : list tnode) : list string :=
-  nodup string_dec (flat_map (fun pk => flat_map (fun h => check_recorded_once pkgs db tree h pk) (p_files pk)) pkgs).
+Definition check_once_all (pre : list tnode) (alias thru : path -> bool) (pkgs : list pkg) (db : list dbpkg) (tree : list tnode) : list string :=
+  nodup string_dec (flat_map (fun pk => flat_map (fun h => check_recorded_once pre alias thru pkgs db tree h pk) (p_files pk)) pkgs).
